@@ -20,6 +20,10 @@ static const char* kTmpl[] = {
   /*26*/ "9.3326361850321887e-30#", /*27*/ "1.8e30#", /*28*/ "#00000000000000000000000e-#", /*29*/ "0.3e#",
   /*30: inside an array*/ "1.#e30#", /*31: as a member value*/ "-#e30#", /*32*/ "2.5e-#",
   /*33*/ "0.0000000000000000000000#", /*34*/ "-0.000000000000000000000000000000000000000#", /*35*/ "0.00000000000000000000000#0",
+  /* 36, 37: exact halfway points between adjacent subnormals written with all their ~750 significant digits; the last digit and one
+     appended digit are symbolic: exactly-tie (round to even), just below and just above */
+  "0.000000000000000000000000000000000000000000000000000000000000000000000000000000000000000000000000000000000000000000000000000000000000000000000000000000000000000000000000000000000000000000000000000000000000000000000000000000000000000000000000000000000000000000000000000000000000000000000000000000000000000000000000000000000007410984687618698162648531893023320585475897039214871466383785237510132609053131277979497545424539885696948470431685765963899850655339096945981621940161728171894510697854671067917687257517734731555330779540854980960845750095811137303474765809687100959097544227100475730780971111893578483867565399878350301522805593404659373979179073872386829939581848166016912201945649993128979841136206248449867871357218035220901702390328579173252022052897402080290685402160661237554998340267130003581248647904138574340187552090159017259254714629617513415977493871857473787096164563890871811984127167305601704549300470526959016576377688490826798697257336652176556794107250876433756084600398490497214911746308553955635418864151316847843631308023759629577398300170898437##",
+  "0.000000000000000000000000000000000000000000000000000000000000000000000000000000000000000000000000000000000000000000000000000000000000000000000000000000000000000000000000000000000000000000000000000000000000000000000000000000000000000000000000000000000000000000000000000000000000000000000000000000000000000000000000000000000012351641146031163604414219821705534309126495065358119110639642062516887681755218796632495909040899809494914117386142943273166417758898494909969369900269546953157517829757785113196145429196224552592217965901424968268076250159685228839124609682811834931829240378500792884634951853155964139779275666463917169204675989007765623298631789787311383232636413610028187003242749988548299735227010414083113118928696725368169503983880965288753370088162336800484475670267768729258330567111883339302081079840230957233645920150265028765424524382695855693295823119762456311826940939818119686640211945509336174248834117544931694293962814151377997828762227753627594656845418127389593474333997484162024852910514256592725698106918861413072718846706266049295663833618164062##",
 };
 static const char* kPre[] = {"[", "{\"a\":", " [ 7 , "};
 static const char* kSuf[] = {"]", "}", " ] "};
@@ -27,7 +31,7 @@ static const char* kSuf[] = {"]", "}", " ] "};
 extern "C" int h_numtext(void) {
   long t = verif_param(0);
   const char* s = kTmpl[t];
-  static char buf[128]; size_t n = 0;
+  static char buf[1400]; size_t n = 0;
   for (; *s; s++) {
     if (*s == '#') buf[n++] = (char)('0' + verif_concrete(verif_range(0, 9, "digit")));
     else buf[n++] = *s;
